@@ -435,6 +435,7 @@ void LabeledUndirectedGraph<EdgeLabel>::removeVertexFromEdgeList(
             if (i == vertex || *j == vertex) {
                 if (i <= *j) {
                     --Directed::edgeNumber;
+                    Directed::edgeLabels.erase(orderedEdge(i, *j));
                 }
                 Directed::adjacencyList[i].erase(j++);
             } else {
